@@ -1,5 +1,5 @@
 import OZ.DrvUtil
-import OZ.Model.Votes
+import OZ.Model.VotesMon
 /-
 Driver for C13 (voting power = delegated balances, now and at every past ledger).
 
@@ -20,24 +20,20 @@ that ledger" filled in whenever the ledger moves. On every implementation observ
   ghost table (hence never changes later; 0 before the start); the current / future ledgers
   are refused; a failed call changes nothing; at most one new checkpoint per account and
   ledger (when the counter is exposed).
+
+The monitor itself (`checkCore`) and the model step on parsed values (`mstep`) live in
+OZ/Model/VotesMon.lean; this file only parses (`parse`, `parseObs`, `initM`, `minitM`) and prints
+(`showState`). OZ/Props/C13Mon.lean proves that `checkCore` never reports anything on the
+observations of the model (`monitor_accepts_every_model_trace`). Not covered by that theorem
+(string level, trusted): `parse` / `parseObs` / `showState` (print-then-parse round trip of an
+observation line), the `site=votes.parse` alarms below, and `parseObs` returning `none` for an
+observation whose `bal` / `votes` / `del` lists do not have N entries.
 -/
 namespace OZ.Drv.C13
-open OZ.Drv OZ.Host
+open OZ.Drv OZ.Host OZ.Votes.Mon
 
-def N : Nat := 5
-def OWNER : Nat := 5
 def IDS : Nat := 8
 def MAX_TTL : Nat := 200000
-
-inductive Kind where
-  | ex | fvb | nft
-  deriving DecidableEq
-
-structure M where
-  kind : Kind
-  cfg : Cfg
-  fv : OZ.FungibleVotes.State
-  nf : OZ.NonFungibleVotes.State
 
 def initM (label : String) : M :=
   let ws := words label
@@ -48,17 +44,7 @@ def initM (label : String) : M :=
     | some "nft" => Kind.nft
     | _ => Kind.ex
   let mx := (kvNat? ws "max_ttl").getD MAX_TTL
-  { kind, cfg := ⟨mt, mx⟩, fv := OZ.FungibleVotes.init st, nf := OZ.NonFungibleVotes.init st }
-
-structure Parsed where
-  op : String
-  a : List Nat
-  amt : Int
-  id : Nat
-  lu : Nat
-  n : Nat
-  auth : List Nat
-  q : List Nat
+  M.init kind ⟨mt, mx⟩ st
 
 def parse (ws : List String) : Option Parsed :=
   match ws with
@@ -69,47 +55,11 @@ def parse (ws : List String) : Option Parsed :=
            q := natList ((kv? rest "q").getD "-") }
   | _ => none
 
-def fvOp (p : Parsed) : Option OZ.FungibleVotes.Op :=
-  match p.op, p.a with
-  | "mint", [t] => some (.mint t p.amt)
-  | "transfer", [f, t] => some (.transfer f t p.amt)
-  | "transfer_from", [sp, f, t] => some (.transferFrom sp f t p.amt)
-  | "approve", [o, sp] => some (.approve o sp p.amt p.lu)
-  | "burn", [f] => some (.burn f p.amt)
-  | "burn_from", [sp, f] => some (.burnFrom sp f p.amt)
-  | "delegate", [a, d] => some (.delegate a d)
-  | "advance", _ => some (.advance p.n)
-  | _, _ => none
-
-def nftOp (p : Parsed) : Option OZ.NonFungibleVotes.Op :=
-  match p.op, p.a with
-  | "mint", [t] => some (.mint t p.id)
-  | "seq_mint", [t] => some (.sequentialMint t)
-  | "transfer", [f, t] => some (.transfer f t p.id)
-  | "transfer_from", [sp, f, t] => some (.transferFrom sp f t p.id)
-  | "burn", [f] => some (.burn f p.id)
-  | "burn_from", [sp, f] => some (.burnFrom sp f p.id)
-  | "approve", [a, b] => some (.approve a b p.id p.lu)
-  | "approve_all", [o, x] => some (.approveForAll o x p.lu)
-  | "delegate", [a, d] => some (.delegate a d)
-  | "advance", _ => some (.advance p.n)
-  | _, _ => none
-
-def showRes (x : Except OZ.Votes.Err Nat) : String :=
-  match x with
-  | .ok v => toString v
-  | .error _ => "E"
-
-def showOpt (x : Option Nat) : String :=
-  match x with
-  | some v => toString v
-  | none => "x"
-
 def commas (l : List String) : String := if l.isEmpty then "-" else ",".intercalate l
 
 /-- the observation line (same format as `Sim::state` in c13.rs) -/
 def showState (m : M) (q : List Nat) : String :=
-  let v : OZ.Votes.State := if m.kind = .nft then m.nf.v else m.fv.v
+  let v : OZ.Votes.State := vOf m
   let acc := List.range N
   let bal := acc.map (fun i => if m.kind = .nft then toString (m.nf.nft.bal i) else toString (m.fv.tok.bal i))
   let units := if m.kind = .ex then "-" else commas (acc.map (fun i => toString (OZ.Votes.getVotingUnits v i)))
@@ -119,53 +69,19 @@ def showState (m : M) (q : List Nat) : String :=
   let ts := showRes (OZ.Votes.getTotalSupply v)
   let tsup := if m.kind = .nft then "-" else toString m.fv.tok.supply
   let own := if m.kind = .nft then commas ((List.range IDS).map (fun id => showOpt (m.nf.nft.owner id))) else "-"
-  let futOk := [v.now, v.now + 1, U32_MAX].zipIdx.any (fun (l, k) =>
-    let a := (v.now + k) % N
-    (match OZ.Votes.getVotesAtCheckpoint v a l with | .ok _ => true | .error _ => false) ||
-    (match OZ.Votes.getTotalSupplyAtCheckpoint v l with | .ok _ => true | .error _ => false))
-  let fut := if futOk then "acc" else "rej"
-  let hist := q.map (fun l =>
-    let row := acc.map (fun i => showRes (OZ.Votes.getVotesAtCheckpoint v i l)) ++
-      [showRes (OZ.Votes.getTotalSupplyAtCheckpoint v l)]
-    s!"{l}:{"/".intercalate row}")
+  let fut := if futOk v then "acc" else "rej"
+  let hist := q.map (fun l => s!"{l}:{"/".intercalate (histRow v l)}")
   s!"now={v.now} bal={commas bal} units={units} del={commas del} votes={commas votes} ncp={ncp} ts={ts} tsup={tsup} own={own} fut={fut} hist={if hist.isEmpty then "-" else ";".intercalate hist}"
 
 def stepLine (m : M) (line : String) : M × String :=
   match parse (words line) with
   | none => (m, "bad-op")
   | some p =>
-    match m.kind with
-    | .nft =>
-      match nftOp p with
-      | none => (m, "bad-op")
-      | some op =>
-        match OZ.NonFungibleVotes.apply m.cfg m.nf p.auth op with
-        | .ok s' => let m' := { m with nf := s' }; (m', "ok " ++ showState m' p.q)
-        | .error _ => (m, "err " ++ showState m p.q)
-    | k =>
-      match fvOp p with
-      | none => (m, "bad-op")
-      | some op =>
-        let r := if k = .ex then OZ.FungibleVotes.exampleApply m.cfg OWNER m.fv p.auth op
-                 else OZ.FungibleVotes.apply m.cfg m.fv p.auth op
-        match r with
-        | .ok s' => let m' := { m with fv := s' }; (m', "ok " ++ showState m' p.q)
-        | .error _ => (m, "err " ++ showState m p.q)
+    match mstep m p with
+    | none => (m, "bad-op")
+    | some (m', ok) => (m', (if ok then "ok " else "err ") ++ showState m' p.q)
 
-/-! ### the monitor -/
-
-structure Obs where
-  ok : Bool
-  now : Nat
-  bal : List Int
-  units : Option (List Nat)
-  del : List (Option Nat)
-  votes : List Int
-  ncp : Option (List Nat)
-  ts : Int
-  fut : String
-  hist : List (Nat × List String)
-  failed : Bool          -- some current getter failed (printed `E` by the harness)
+/-! ### the monitor: parsing only, the checks are `OZ.Votes.Mon.checkCore` -/
 
 def optList (s : String) : Option (List Nat) := if s = "-" then none else some (natList s)
 
@@ -191,94 +107,13 @@ def parseObs (line : String) : Option Obs :=
     else pure { ok := tag = "ok", now, bal, units, del, votes, ncp, ts, fut, hist, failed }
   | _ => none
 
-structure Mon where
-  start : Nat
-  prev : Obs
-  del : List (Option Nat)                 -- ghost: delegate per account
-  table : List (Nat × Nat × List String)  -- ghost: ledgers lo ≤ l < hi ended with this row
-  lastCp : List (Option Nat)              -- ledger at which the counter of an account last grew
-
-def zeroObs (start : Nat) : Obs :=
-  { ok := true, now := start, bal := List.replicate N 0, units := none, del := List.replicate N none,
-    votes := List.replicate N 0, ncp := none, ts := 0, fut := "rej", hist := [], failed := false }
-
-def minitM (label : String) : Mon :=
-  let st := (kvNat? (words label) "start").getD 100
-  { start := st, prev := zeroObs st, del := List.replicate N none, table := [],
-    lastCp := List.replicate N none }
-
-def rowOf (o : Obs) : List String := o.votes.map toString ++ [toString o.ts]
-
-/-- ghost value of a past ledger: zeros before the start, else the recorded row -/
-def expected (m : Mon) (table : List (Nat × Nat × List String)) (q : Nat) : Option (List String) :=
-  if q < m.start then some (List.replicate (N + 1) "0")
-  else (table.find? (fun (lo, hi, _) => lo ≤ q ∧ q < hi)).map (fun (_, _, r) => r)
-
-/-- Σ of the balances of the accounts whose (ghost) delegate is `a` -/
-def delegatedSum (del : List (Option Nat)) (bal : List Int) (a : Nat) : Int :=
-  ((del.zip bal).filterMap (fun (d, b) => if d = some a then some b else none)).sum
+def minitM (label : String) : Mon := monInit ((kvNat? (words label) "start").getD 100)
 
 def check (m : Mon) (opl obs : String) : Mon × Option String :=
   match parseObs obs, parse (words opl) with
   | none, _ => (m, some s!"site=votes.parse unparsable observation {obs}")
   | _, none => (m, some s!"site=votes.parse unparsable op {opl}")
-  | some o, some p =>
-    if o.failed then
-      -- a getter of the current state panicked: an entry the library relies on is gone
-      (m, some (if p.op = "advance"
-        then s!"site=votes.idle.changed after moving the ledger by {p.n} a getter fails: {obs.take 300}"
-        else s!"site=votes.getter_failed a getter fails after {p.op}: {obs.take 300}"))
-    else
-    let prev := m.prev
-    -- ghost updates from the ACCEPTED operation only
-    let del' := match p.op, p.a with
-      | "delegate", [a, d] => if o.ok then m.del.set a (some d) else m.del
-      | _, _ => m.del
-    let table' := if p.op = "advance" ∧ o.ok ∧ p.n > 0 then (prev.now, prev.now + p.n, rowOf prev) :: m.table
-                  else m.table
-    -- checkpoint counters: at most one new checkpoint per account and ledger
-    let cpFail : Option String := match o.ncp, prev.ncp with
-      | some nc, some pc =>
-        (List.range N).findSome? (fun a =>
-          let c := nc.getD a 0; let c0 := pc.getD a 0
-          if c < c0 then some s!"site=votes.coalesce checkpoint counter of {a} decreased"
-          else if c > c0 + 1 then some s!"site=votes.coalesce {c - c0} checkpoints for {a} in one call"
-          else if c = c0 + 1 ∧ (m.lastCp.getD a none) = some o.now then
-            some s!"site=votes.coalesce second checkpoint for {a} in ledger {o.now}"
-          else if c = c0 ∧ o.votes.getD a 0 ≠ prev.votes.getD a 0 ∧ (m.lastCp.getD a none) ≠ some o.now then
-            some s!"site=votes.coalesce votes of {a} changed in a new ledger without a new checkpoint"
-          else none)
-      | _, _ => none
-    let lastCp' := match o.ncp with
-      | some nc =>
-        let pc := prev.ncp.getD (List.replicate N 0)
-        (List.range N).map (fun a => if nc.getD a 0 > pc.getD a 0 then some o.now else m.lastCp.getD a none)
-      | none => m.lastCp
-    let m' : Mon := { m with prev := o, del := del', table := table', lastCp := lastCp' }
-    let badVotes := (List.range N).find? (fun a => o.votes.getD a 0 ≠ delegatedSum del' o.bal a)
-    let badHist := o.hist.find? (fun (q, row) =>
-      if q ≥ o.now then row.any (· ≠ "E")
-      else match expected m table' q with
-        | some r => r ≠ row
-        | none => false)
-    let fail : Option String :=
-      if p.op = "advance" ∧ (o.now ≠ prev.now + p.n ∨ o.votes ≠ prev.votes ∨ o.ts ≠ prev.ts ∨ o.bal ≠ prev.bal ∨
-          o.del ≠ prev.del ∨ (prev.units.isSome ∧ o.units ≠ prev.units) ∨ (prev.ncp.isSome ∧ o.ncp ≠ prev.ncp)) then
-        some s!"site=votes.idle.changed moving the ledger by {p.n} (no call in between) changed a current value: votes {prev.votes}->{o.votes} total {prev.ts}->{o.ts} delegates {prev.del.map showOpt}->{o.del.map showOpt} units {prev.units}->{o.units} checkpoints {prev.ncp}->{o.ncp}"
-      else if o.fut ≠ "rej" then some s!"site=votes.future a query for the current or a future ledger was answered: {o.fut}"
-      else if let some a := badVotes then
-        some s!"site=votes.delegated_sum get_votes({a})={o.votes.getD a 0} but the balances delegated to {a} sum to {delegatedSum del' o.bal a}"
-      else if o.ts ≠ o.bal.sum then some s!"site=votes.total get_total_supply={o.ts} but balances sum to {o.bal.sum}"
-      else if o.units.isSome ∧ (o.units.getD []).map Int.ofNat ≠ o.bal then
-        some s!"site=votes.units_balance voting units {o.units.getD []} differ from balances {o.bal}"
-      else if o.del ≠ del' then some s!"site=votes.delegate get_delegate differs from the accepted delegations"
-      else if let some (q, row) := badHist then
-        some s!"site=votes.history query at ledger {q} (now={o.now}) returned {row} but the values at the end of that ledger were {(expected m table' q).getD []}"
-      else if ¬ o.ok ∧ (o.bal ≠ prev.bal ∨ o.votes ≠ prev.votes ∨ o.del ≠ prev.del ∨ o.ts ≠ prev.ts ∨ (prev.ncp.isSome ∧ o.ncp ≠ prev.ncp) ∨ o.now ≠ prev.now) then
-        some "site=votes.rollback a failed call changed balances, votes, delegates or checkpoints"
-      else if (o.bal.any (· < 0)) then some "site=votes.negative a balance is negative"
-      else cpFail
-    (m', fail)
+  | some o, some p => checkCore m p o obs
 
 def machine : Machine where
   σ := M
